@@ -451,3 +451,41 @@ Proof.
   exists r. split; [exact Hn|]. split; [exact Hs|]. intros x Hin. exact (L_set c (JL_reach v np ops c Hr) r x Hs Hin).
 Qed.
 
+(* ---- the premises of the chain theorems can be met together *)
+Definition premises_history : list jop :=
+  [JClient 2 [] 0; JJoin 2 1; JJoin 1 0; JFulfill 0 []; JCall 0 false; JRelease 2; JRelease 1; JRelease 0; JWait 2].
+
+Lemma jquiesce_reach : forall v np ops fuel c n c',
+  jreach v np ops c -> jquiesce v fuel c n = Some c' -> jreach v np ops c'.
+Proof.
+  induction fuel as [|f IH]; simpl; intros c n c' Hr Hq; [discriminate|].
+  destruct (jfirst_enabled v c n) as [t|]; [|inversion Hq; subst; exact Hr].
+  destruct (jstep v c t) as [c1|] eqn:E; [|inversion Hq; subst; exact Hr].
+  exact (IH c1 n c' (jreach_step v np ops c t c1 Hr E) Hq).
+Qed.
+
+Definition premises_final : jconfig :=
+  Eval vm_compute in
+  match jquiesce jfixed 1000 (jinit 3 premises_history) 9 with Some c => c | None => jinit 3 premises_history end.
+
+Theorem join_premises_satisfiable :
+  jv_close_joined jfixed = true /\ jv_alloc_table jfixed = true /\ jv_refs_sum jfixed = true /\
+  join_ordered premises_history /\
+  exists c, jreach jfixed 3 premises_history c /\ (forall t, jenabled jfixed c t = false) /\
+            (forall t th, nth_error (jthreads c) t = Some th -> j_pc th = QDone).
+Proof.
+  split; [reflexivity|]. split; [reflexivity|]. split; [reflexivity|]. split.
+  { unfold join_ordered, premises_history. repeat constructor. }
+  exists premises_final.
+  assert (Hq : jquiesce jfixed 1000 (jinit 3 premises_history) 9 = Some premises_final) by (vm_compute; reflexivity).
+  split; [exact (jquiesce_reach jfixed 3 premises_history 1000 _ 9 _ (jreach_init jfixed 3 premises_history) Hq)|].
+  assert (Hlen : length (jthreads premises_final) = 9%nat) by (vm_compute; reflexivity).
+  assert (Hall : forallb (fun th => match j_pc th with QDone => true | _ => false end) (jthreads premises_final) = true)
+    by (vm_compute; reflexivity).
+  assert (Hdone : forall t th, nth_error (jthreads premises_final) t = Some th -> j_pc th = QDone).
+  { intros t th Hth. rewrite forallb_forall in Hall. specialize (Hall th (nth_error_In _ _ Hth)).
+    destruct (j_pc th); try discriminate Hall; reflexivity. }
+  split; [|exact Hdone].
+  intros t. unfold jenabled, jstep. destruct (nth_error (jthreads premises_final) t) as [th|] eqn:Hth; [|reflexivity].
+  unfold jstep_thread. rewrite (Hdone t th Hth). reflexivity.
+Qed.
